@@ -37,6 +37,36 @@ def scenario(g, i):
     return tree, search, replace
 
 
+def with_occupant(H, r, tree, search, replace):
+    """the same tree with something already sitting where one planned rename wants to go (a bystander the plan never mentions):
+    a file, an empty directory, a symlink to the entry being renamed, a dangling symlink — also inside a directory that is renamed"""
+    sr = H.ask({"op": "scan_tree", "tree": cli.tree_json(tree), "search": core.hx(search), "replace": core.hx(replace)})
+    if not sr.get("ok") or not sr["plan"]["paths"]:
+        return None
+    paths = sr["plan"]["paths"]
+    nested = [p for p in paths if "/" in p["path"] and any(p["path"].startswith(q["path"] + "/") for q in paths)]
+    ren = r.choice(nested) if nested and r.random() < 0.6 else r.choice(paths)
+    dest = ren["new_path"]
+    if any(e["p"] == dest for e in tree):
+        return None
+    kind = r.randrange(4)
+    if kind == 0:
+        occ = {"p": dest, "k": "f", "c": b"bystander, not part of the plan\n", "m": 0o640}
+    elif kind == 1:
+        occ = {"p": dest, "k": "d", "m": 0o755}
+    elif kind == 2:
+        occ = {"p": dest, "k": "l", "t": ren["path"].rsplit("/", 1)[-1]}
+    else:
+        occ = {"p": dest, "k": "l", "t": "nowhere"}
+    t2 = tree + [occ]
+    # when the replacement contains the search term the occupant would itself be scheduled for a rename (a chain, not a bystander)
+    sr2 = H.ask({"op": "scan_tree", "tree": cli.tree_json(t2), "search": core.hx(search), "replace": core.hx(replace)})
+    if not sr2.get("ok") or any(p["path"] == dest or dest.startswith(p["path"] + "/") and p["path"] != ren["path"].rsplit("/", 1)[0]
+                                 for p in sr2["plan"]["paths"] if p["path"] == dest):
+        return None
+    return t2
+
+
 def one_case(R, H, M, tree, search, replace, out, rnd=None):
     tj = cli.tree_json(tree)
     sr = H.ask({"op": "scan_tree", "tree": tj, "search": core.hx(search), "replace": core.hx(replace)})
@@ -56,7 +86,27 @@ def one_case(R, H, M, tree, search, replace, out, rnd=None):
     out["dir_renames"] += sum(1 for p in plan["paths"] if p["kind"] == "dir")
     if isinstance(ref, tuple) and ref[0] == "error":
         if "two nodes end at" in ref[1]:
+            # a planned destination is occupied: the plan has no meaning as a tree. Whatever apply does, a run that reports
+            # success must not have touched an entry the plan does not mention (C02: "every other ... file ... unchanged")
             out["skipped_collision"] += 1
+            ar = H.ask({"op": "apply_tree", "tree": tj, "plan": plan})
+            if ar.get("ok") and "tree" in ar:
+                impl = al.harness_tree_dict(ar["tree"])
+                newname = {p["path"]: p["new_path"].rsplit("/", 1)[-1] for p in plan["paths"]}
+                edited = {h["file"] for h in plan["matches"]}
+                for pth0, node in t0.items():
+                    if pth0 in edited or pth0 in newname:
+                        continue
+                    # where a bystander below renamed directories has to end up: each renamed ancestor's own component replaced
+                    comps = pth0.split("/")
+                    pth = "/".join(newname.get("/".join(comps[:k + 1]), c) for k, c in enumerate(comps))
+                    if impl.get(pth) != node:
+                        out["fail"].append({"why": f"a successful apply changed or removed '{pth}', which the plan does not mention "
+                                                   "(a planned destination was occupied)", "tree": tj, "search": search,
+                                            "replace": replace, "plan": plan, "now": repr(impl.get(pth))[:200]})
+                        break
+            else:
+                out["collision_refused"] = out.get("collision_refused", 0) + 1
             return
         out["fail"].append({"why": "plan is not applicable by the reference interpreter: " + ref[1], "tree": tj,
                             "search": search, "replace": replace, "plan": plan})
@@ -108,6 +158,11 @@ def run(R):
     for i in range(n):
         tree, search, replace = scenario(g, i)
         one_case(R, H, M, tree, search, replace, out, rnd=g.r)
+        if i % 3 == 0:
+            t2 = with_occupant(H, g.r, tree, search, replace)
+            if t2 is not None:
+                out["occupied_destination_cases"] = out.get("occupied_destination_cases", 0) + 1
+                one_case(R, H, M, t2, search, replace, out)
     # CLI level: plan -> apply from the saved file on an unchanged tree
     cli_n = 5 if R.tier == "quick" else 40
     for i in range(cli_n):
@@ -134,7 +189,8 @@ def run(R):
                                     "diff": repr(cli.diff_snap(snap, al.sha_dict(ref)))[:1200]})
     H.close()
     M.close()
-    R.coverage["input_distribution"] = {k: out[k] for k in ("hunks", "renames", "dir_renames", "skipped_collision", "shuffled_plans")}
+    R.coverage["input_distribution"] = {k: out.get(k, 0) for k in ("hunks", "renames", "dir_renames", "skipped_collision", "shuffled_plans",
+                                                                     "occupied_destination_cases", "collision_refused")}
     R.disagreements = len(out["dis"])
     for f in out["fail"][:3]:
         R.violation(f["why"], {"kind": "impl_failure", **f})
